@@ -117,7 +117,7 @@ def big_endian_digits_to_int(digits: Iterable[int], *, base: int | Iterable[int]
         if not (0 <= d < b):
             raise ValueError(f'Out of range digit. Digit: {d!r}, base: {b!r}')
         result *= b
-        result += d
+        result += int(d)
     return result
 
 
